@@ -180,9 +180,9 @@ def r2(ck, F):
     ck.ok("C04.R2", "dyn boundary recorded", nontrivial=False, detail=sorted(boundary))
 
 
-def r3(ck, F):
+def r3(ck, F, rid="C04.R3"):
     b = F.body(LL + "push")
-    if not ck.anchor("C04.R3", "LinkedList::push", b):
+    if not ck.anchor(rid, "LinkedList::push", b):
         return
     stores = [(bb, t) for bb, t in b.calls() if t["callee"].get("method") == "store" and "atomic" in t["callee"].get("path", "")]
     cas = [(bb, t) for bb, t in b.calls() if t["callee"].get("method") in ("compare_exchange", "compare_exchange_weak") and "atomic" in t["callee"].get("path", "")]
@@ -195,47 +195,47 @@ def r3(ck, F):
         _, cf = recv_fields(b, ct)
         link_first = b.dominates(sbb, cbb) and sf[-1:] == ["next"] and cf[-1:] == ["head"]
         if link_first:
-            ck.ok("C04.R3", "registration.next is linked before head is swung", fn=b.path)
+            ck.ok(rid, "registration.next is linked before head is swung", fn=b.path)
         else:
-            ck.bad("C04.R3", "registration.next is linked before head is swung", where(b.raw["sp"]), "next.store does not dominate the compare_exchange on head", fn=b.path)
+            ck.bad(rid, "registration.next is linked before head is swung", where(b.raw["sp"]), "next.store does not dominate the compare_exchange on head", fn=b.path)
         # the CAS publishes `registration` expecting the same `head` that was linked
         exp = b.origin(ct["argv"][1])
         linked = b.origin(st["argv"][1])
         same = exp[:2] == linked[:2]
         new = b.origin(ct["argv"][2])
         if same and new[0] == "arg" and new[1] == 2:
-            ck.ok("C04.R3", "CAS(head: linked value -> registration)", fn=b.path)
+            ck.ok(rid, "CAS(head: linked value -> registration)", fn=b.path)
         else:
-            ck.bad("C04.R3", "CAS(head: linked value -> registration)", where(ct["sp"]), "expected/linked %s/%s new %s" % (exp[:2], linked[:2], new[:2]), fn=b.path)
+            ck.bad(rid, "CAS(head: linked value -> registration)", where(ct["sp"]), "expected/linked %s/%s new %s" % (exp[:2], linked[:2], new[:2]), fn=b.path)
         # failure edge retries: a path from the CAS back to the store exists (loop) and the Err payload becomes head
         back = sbb in b.reachable(ct["ret"])
         if back:
-            ck.ok("C04.R3", "a failed CAS retries with the observed head", fn=b.path)
+            ck.ok(rid, "a failed CAS retries with the observed head", fn=b.path)
         else:
-            ck.bad("C04.R3", "a failed CAS retries with the observed head", where(ct["sp"]), "no loop from the compare_exchange back to the link step", fn=b.path)
+            ck.bad(rid, "a failed CAS retries with the observed head", where(ct["sp"]), "no loop from the compare_exchange back to the link step", fn=b.path)
         o_store = ordering_of(b, st["argv"][2])
         o_cas = ordering_of(b, ct["argv"][3])
         if ORD_RANK.get(o_store, 0) >= 1 and o_store != "Acquire" and ORD_RANK.get(o_cas, 0) >= 1 and o_cas != "Acquire":
-            ck.ok("C04.R3", "orderings: link %s, CAS %s (>= Release)" % (o_store, o_cas), fn=b.path)
+            ck.ok(rid, "orderings: link %s, CAS %s (>= Release)" % (o_store, o_cas), fn=b.path)
         else:
-            ck.bad("C04.R3", "orderings: link/CAS >= Release", where(ct["sp"]), "store %s, CAS %s" % (o_store, o_cas), fn=b.path)
+            ck.bad(rid, "orderings: link/CAS >= Release", where(ct["sp"]), "store %s, CAS %s" % (o_store, o_cas), fn=b.path)
         # self-link assert
         asserts = [1 for bb, t in b.calls() if "assert_failed" in t["callee"].get("path", "") or "panic" in t["callee"].get("path", "")]
         if asserts:
-            ck.ok("C04.R3", "self-link assertion present", fn=b.path)
+            ck.ok(rid, "self-link assertion present", fn=b.path)
         else:
-            ck.bad("C04.R3", "self-link assertion present", where(b.raw["sp"]), "pushing the same registration twice would create a cycle silently", fn=b.path)
+            ck.bad(rid, "self-link assertion present", where(b.raw["sp"]), "pushing the same registration twice would create a cycle silently", fn=b.path)
     else:
-        ck.bad("C04.R3", "push shape", where(b.raw["sp"]), "expected one store and one compare_exchange, found %d/%d" % (len(stores), len(cas)), fn=b.path)
+        ck.bad(rid, "push shape", where(b.raw["sp"]), "expected one store and one compare_exchange, found %d/%d" % (len(stores), len(cas)), fn=b.path)
     fe = F.body(LL + "for_each")
-    if ck.anchor("C04.R3", "LinkedList::for_each", fe):
+    if ck.anchor(rid, "LinkedList::for_each", fe):
         bad = [ordering_of(fe, t["argv"][1]) for bb, t in fe.calls() if t["callee"].get("method") == "load" and "atomic" in t["callee"].get("path", "")
                and ORD_RANK.get(ordering_of(fe, t["argv"][1]), 0) < 1]
         n = len([1 for bb, t in fe.calls() if t["callee"].get("method") == "load" and "atomic" in t["callee"].get("path", "")])
         if n >= 2 and not bad:
-            ck.ok("C04.R3", "for_each loads head/next with >= Acquire", fn=fe.path)
+            ck.ok(rid, "for_each loads head/next with >= Acquire", fn=fe.path)
         else:
-            ck.bad("C04.R3", "for_each loads head/next with >= Acquire", where(fe.raw["sp"]), "%d loads, weak orderings %s" % (n, bad), fn=fe.path)
+            ck.bad(rid, "for_each loads head/next with >= Acquire", where(fe.raw["sp"]), "%d loads, weak orderings %s" % (n, bad), fn=fe.path)
 
 
 def r4(ck, F):
